@@ -3,6 +3,7 @@
 // property's own predicates evaluated on the implementation (property C18).
 //
 // case:  KIND GROUP ARENA T D SEGS SEL        (SEL: r | f<i>; the selected pointer's Struct())
+//   GROUP = g<id>:<hex of the canonical bytes of the group's first member, "-" for the first member itself>
 // obs:   RES SPEC FLAGS TREE
 //   RES   = Canonicalize under the case's limits: ok:<hex> | E | panic
 //   SPEC  = Canonicalize under generous limits when the walked tree is complete: ok:<hex>,
@@ -147,9 +148,8 @@ func idempotent(out []byte) (ok bool) {
 	return err == nil && bytes.Equal(b, out)
 }
 
-type groups map[string][]byte
-
-func observe(gr groups, group string, m *rd.Msg, s string) string {
+// observe: ref = canonical bytes of the first member of the case's group (nil: this is the first member).
+func observe(ref []byte, m *rd.Msg, s string) (string, []byte) {
 	res, _ := canonObs(m, m.T, m.D, s)
 	spec, out := canonObs(m, genT, 0, s)
 	tree := walkSel(m, s)
@@ -160,27 +160,29 @@ func observe(gr groups, group string, m *rd.Msg, s string) string {
 	case spec == "E" && capRe.MatchString(tree):
 		spec = "cap"
 	case out != nil:
-		ref, seen := gr[group]
-		if !seen {
-			gr[group] = out
+		if ref == nil {
 			ref = out
 		}
 		flags = "R" + bit(readBackEqual(m, s, out)) + "I" + bit(idempotent(out)) + "G" + bit(bytes.Equal(ref, out)) + "P1"
 	}
-	return fmt.Sprintf("%s %s %s %s", res, spec, flags, tree)
+	return fmt.Sprintf("%s %s %s %s", res, spec, flags, tree), out
 }
 
 var limitsT = []uint64{0, 0, 0, 0, 8, 16, 64, 200, 1024, 1 << 20}
 var limitsD = []uint{0, 0, 0, 0, 1, 2, 3, 4, 5, 6, 8, 64, 70}
 
 func run(out *Out, r *Rand, tier string, replay []string) {
-	gr := groups{}
+	gr := map[string][]byte{}
 	if replay != nil {
 		for _, l := range replay {
 			f := strings.Fields(l)
 			obs := "bad-case"
 			if len(f) == 7 {
-				obs = observe(gr, f[1], rd.ParseHeader(f[2:6]), f[6])
+				var ref []byte
+				if g := strings.SplitN(f[1], ":", 2); len(g) == 2 && g[1] != "-" {
+					ref = Unhx(g[1])
+				}
+				obs, _ = observe(ref, rd.ParseHeader(f[2:6]), f[6])
 			}
 			out.Case(f[0], l, obs, Cls(obs), true)
 		}
@@ -193,11 +195,19 @@ func run(out *Out, r *Rand, tier string, replay []string) {
 	}
 	gid := 0
 	emit := func(kind string, group string, m *rd.Msg, s string) {
-		line := fmt.Sprintf("%s %s %s %s", kind, group, m.Header(), s)
+		ref := gr[group]
+		tok := group + ":-"
+		if ref != nil {
+			tok = group + ":" + Hx(ref)
+		}
+		line := fmt.Sprintf("%s %s %s %s", kind, tok, m.Header(), s)
 		if len(line) > 100000 {
 			return
 		}
-		obs := observe(gr, group, m, s)
+		obs, outb := observe(ref, m, s)
+		if ref == nil && outb != nil && strings.Fields(obs)[2] != "-" {
+			gr[group] = outb
+		}
 		f := strings.Fields(obs)
 		cls := f[0]
 		if strings.HasPrefix(cls, "ok:") {
